@@ -50,6 +50,11 @@ def _string_literals(path):
     return out
 
 
+# full paths a rule asks to have spliced in although their last segment collides with an anchor name of another rule
+# (`UndoEntry::restore` vs `StateStore::restore`); set by the rule, followed by Program.reinline(name)
+FORCE_INLINE = set()
+
+
 def rule_names():
     """Function names a rule looks up: they are never inlined away. Taken from the string literals of the rule modules
     (Python identifiers such as a `.discard(` method call are not anchors) and from the reviewed tables."""
@@ -509,7 +514,7 @@ def inlinable(prog, caller_name, callee_name, stack):
         small = len(g["blocks"]) <= 8 and not any(b["t"][2] == "switch" for b in g["blocks"][8:])
         if not (small and g.get("impl_self") and g.get("impl_self") == c.get("impl_self")):
             return False
-    if callee_name.rsplit("::", 1)[-1] in rule_names() or callee_name.rsplit("::", 1)[-1] in NEVER_INLINE:
+    if callee_name not in FORCE_INLINE and (callee_name.rsplit("::", 1)[-1] in rule_names() or callee_name.rsplit("::", 1)[-1] in NEVER_INLINE):
         return False
     if len(g["blocks"]) > 150:
         return False
